@@ -97,3 +97,59 @@ func valueType(t ssa.Type) bool {
 //@   requires cur != nil && result != nil && valueType(result.Type)
 //@   ensures[stack-result-stored-at-full-width] isStoreKind(r0) && moveBits(r0) == typeBits(result.Type) && r0.prev == cur
 //@   nosafety
+
+// ---- C02 / C05: a memory access of the SSA is lowered to a load / store of exactly the access width, with
+// the extension the SSA opcode names. The last instruction handed to insert is recorded in a history ghost.
+func insKind() instructionKind { return instructionKind(verif_ghost_int("H:insKind")) }
+
+func kindBits(k instructionKind) int {
+	switch k {
+	case uLoad8, sLoad8, store8:
+		return 8
+	case uLoad16, sLoad16, store16:
+		return 16
+	case uLoad32, sLoad32, fpuLoad32, store32, fpuStore32:
+		return 32
+	case uLoad64, fpuLoad64, store64, fpuStore64:
+		return 64
+	case fpuLoad128, fpuStore128:
+		return 128
+	}
+	return 0
+}
+
+func isSignedLoad(k instructionKind) bool { return k == sLoad8 || k == sLoad16 || k == sLoad32 }
+func isUnsignedLoad(k instructionKind) bool {
+	return k == uLoad8 || k == uLoad16 || k == uLoad32 || k == uLoad64
+}
+func isStoreK(k instructionKind) bool {
+	return k == store8 || k == store16 || k == store32 || k == store64 || k == fpuStore32 || k == fpuStore64 || k == fpuStore128
+}
+
+//@ prop C02 C05
+//@ func (m *machine) insert(i *instruction)
+//@   trusted
+//@   maybe-nil i
+//@   records H:insKind = int(i.kind)
+//@   modifies ghost("H:insKind"), m.pendingInstructions, elems(m.pendingInstructions)
+
+//@ func (m *machine) lowerLoad(ptr ssa.Value, offset uint32, typ ssa.Type, ret ssa.Value)
+//@   requires valueType(typ) && m.compiler != nil
+//@   ensures[loads-exactly-the-bits-of-the-type] kindBits(insKind()) == typeBits(typ) && !isStoreK(insKind()) && !isSignedLoad(insKind())
+//@   nosafety
+
+//@ func (m *machine) lowerExtLoad(op ssa.Opcode, ptr ssa.Value, offset uint32, ret regalloc.VReg)
+//@   requires op == ssa.OpcodeUload8 || op == ssa.OpcodeUload16 || op == ssa.OpcodeUload32 || op == ssa.OpcodeSload8 || op == ssa.OpcodeSload16 || op == ssa.OpcodeSload32
+//@   ensures[loads-exactly-the-named-width] (op == ssa.OpcodeUload8 || op == ssa.OpcodeSload8 ==> kindBits(insKind()) == 8) && (op == ssa.OpcodeUload16 || op == ssa.OpcodeSload16 ==> kindBits(insKind()) == 16) && (op == ssa.OpcodeUload32 || op == ssa.OpcodeSload32 ==> kindBits(insKind()) == 32)
+//@   ensures[extends-as-the-opcode-says] (op == ssa.OpcodeUload8 || op == ssa.OpcodeUload16 || op == ssa.OpcodeUload32 ==> isUnsignedLoad(insKind())) && (op == ssa.OpcodeSload8 || op == ssa.OpcodeSload16 || op == ssa.OpcodeSload32 ==> isSignedLoad(insKind()))
+//@   nosafety
+
+//@ func (m *machine) lowerStore(si *ssa.Instruction)
+//@   requires si != nil && m.compiler != nil && (storeBitsOf(si) == 8 || storeBitsOf(si) == 16 || storeBitsOf(si) == 32 || storeBitsOf(si) == 64 || storeBitsOf(si) == 128)
+//@   ensures[stores-exactly-the-stated-width] isStoreK(insKind()) && kindBits(insKind()) == int(old(storeBitsOf(si)))
+//@   nosafety
+
+func storeBitsOf(si *ssa.Instruction) byte {
+	_, _, _, b := si.StoreData()
+	return b
+}
